@@ -406,4 +406,270 @@ theorem C11_heap_unpack_inputs_untouched (k : PduKind) (idw seqw : Nat) (withObj
 theorem C11_heap_holder_ctor_inputs_untouched (pdu : Option Addr) : InputsUntouched (newHolder pdu) :=
   C11_heap_allocOnly_inputs_untouched (by unfold newHolder; alloc_ops)
 
+/-! ## (c) separation where the code separates -/
+
+private theorem new_run (c : Cell) (s : Store) (r : Addr) (s' : Store) :
+    (new c).run s = some (r, s') ↔ r = s.length ∧ s' = s ++ [c] := by
+  simp only [new, StateT.run, Option.some.injEq, Prod.mk.injEq]
+  constructor <;> rintro ⟨rfl, rfl⟩ <;> exact ⟨rfl, rfl⟩
+
+private theorem pure_run {α : Type} (a : α) (s : Store) (r : α) (s' : Store) :
+    (pure a : H α).run s = some (r, s') ↔ r = a ∧ s' = s := by
+  simp only [StateT.run_pure, Option.pure_def, Option.some.injEq, Prod.mk.injEq]
+  constructor <;> rintro ⟨rfl, rfl⟩ <;> exact ⟨rfl, rfl⟩
+
+private theorem fail_run {α : Type} (s : Store) (r : α) (s' : Store) : (fail : H α).run s = some (r, s') ↔ False := by
+  simp [fail, StateT.run]
+
+private theorem ref_run (a : Addr) (i : Nat) (s : Store) (r : Addr) (s' : Store) :
+    (ref a i).run s = some (r, s') ↔ (∃ c, s[a]? = some c ∧ c.refs[i]? = some (some r)) ∧ s' = s := by
+  unfold ref
+  rw [run_bind_some]
+  constructor
+  · rintro ⟨c, s1, h1, h2⟩
+    obtain ⟨hc, rfl⟩ := (cellAt_run _ _ _ _).mp h1
+    split at h2
+    · rename_i r' hr
+      obtain ⟨rfl, rfl⟩ := (pure_run _ _ _ _).mp h2
+      exact ⟨⟨c, hc, hr⟩, rfl⟩
+    · exact ((fail_run _ _ _).mp h2).elim
+  · rintro ⟨⟨c, hc, hr⟩, rfl⟩
+    refine ⟨c, s', (cellAt_run _ _ _ _).mpr ⟨hc, rfl⟩, ?_⟩
+    simp only [hr]
+    exact (pure_run _ _ _ _).mpr ⟨rfl, rfl⟩
+
+private theorem scalAt_run (a : Addr) (i : Nat) (s : Store) (v : Nat) (s' : Store) :
+    (scalAt a i).run s = some (v, s') ↔ (∃ c, s[a]? = some c ∧ c.scal[i]? = some v) ∧ s' = s := by
+  unfold scalAt
+  rw [run_bind_some]
+  constructor
+  · rintro ⟨c, s1, h1, h2⟩
+    obtain ⟨hc, rfl⟩ := (cellAt_run _ _ _ _).mp h1
+    split at h2
+    · rename_i v' hv
+      obtain ⟨rfl, rfl⟩ := (pure_run _ _ _ _).mp h2
+      exact ⟨⟨c, hc, hv⟩, rfl⟩
+    · exact ((fail_run _ _ _).mp h2).elim
+  · rintro ⟨⟨c, hc, hv⟩, rfl⟩
+    refine ⟨c, s', (cellAt_run _ _ _ _).mpr ⟨hc, rfl⟩, ?_⟩
+    simp only [hv]
+    exact (pure_run _ _ _ _).mpr ⟨rfl, rfl⟩
+
+private theorem copyCell_run (a : Addr) (s : Store) (r : Addr) (s' : Store) :
+    (copyCell a).run s = some (r, s') ↔ ∃ c, s[a]? = some c ∧ r = s.length ∧ s' = s ++ [c] := by
+  unfold copyCell
+  rw [run_bind_some]
+  constructor
+  · rintro ⟨c, s1, h1, h2⟩
+    obtain ⟨hc, rfl⟩ := (cellAt_run _ _ _ _).mp h1
+    exact ⟨c, hc, (new_run _ _ _ _).mp h2⟩
+  · rintro ⟨c, hc, rfl, rfl⟩
+    exact ⟨c, s, (cellAt_run _ _ _ _).mpr ⟨hc, rfl⟩, (new_run _ _ _ _).mpr ⟨rfl, rfl⟩⟩
+
+private theorem setScal_run (a : Addr) (i v : Nat) (s : Store) (u : Unit) (s' : Store) :
+    (setScal a i v).run s = some (u, s') ↔ ∃ c, s[a]? = some c ∧ s' = s.set a { c with scal := c.scal.set i v } := by
+  unfold setScal
+  rw [run_bind_some]
+  constructor
+  · rintro ⟨c, s1, h1, h2⟩
+    obtain ⟨hc, rfl⟩ := (cellAt_run _ _ _ _).mp h1
+    exact ⟨c, hc, ((put_run _ _ _ _ _).mp h2).2⟩
+  · rintro ⟨c, hc, rfl⟩
+    exact ⟨c, s, (cellAt_run _ _ _ _).mpr ⟨hc, rfl⟩, (put_run _ _ _ _ _).mpr ⟨(List.getElem?_eq_some_iff.mp hc).1, rfl⟩⟩
+
+/-- the cell at `a` holds no objects (`PacketId`, `PacketSeqCtrl`, byte fields, secondary headers …) -/
+def Leaf (s : Store) (a : Addr) : Prop := (s[a]?.map Cell.kids).getD [] = []
+
+instance (s : Store) (a : Addr) : Decidable (Leaf s a) := by unfold Leaf; infer_instance
+
+/-- the objects held by the cell at `a` hold no objects themselves (a header: its `PacketId` and `PacketSeqCtrl`) -/
+def KidsAreLeaves (s : Store) (a : Addr) : Prop := ∀ r ∈ (s[a]?.map Cell.kids).getD [], Leaf s r
+
+instance (s : Store) (a : Addr) : Decidable (KidsAreLeaves s a) := by unfold KidsAreLeaves; infer_instance
+
+private theorem leaf_kids {s : Store} {a : Addr} {c : Cell} (hl : Leaf s a) (hc : s[a]? = some c) : c.kids = [] := by
+  simpa [Leaf, hc] using hl
+
+private theorem kid_of_ref {c : Cell} {i : Nat} {r : Addr} (h : c.refs[i]? = some (some r)) : r ∈ c.kids :=
+  mem_kids.mpr (List.mem_of_getElem? h)
+
+/-- SEPARATION (since 840b2f2): the request ID taken from a header has no cell in common with ANY object that existed
+    before the call — the header, the telecommand, other request IDs of the same telecommand -/
+theorem C15_heap_reqid_separated (s : Store) (hc : Closed s) (hdr : Addr) (hl : KidsAreLeaves s hdr)
+    (rid : Addr) (s' : Store) (h : (reqIdFromSpHeader hdr).run s = some (rid, s')) (b : Addr) (hb : b < s.length) :
+    Disjoint (reach s' rid) (reach s' b) := by
+  unfold reqIdFromSpHeader at h
+  obtain ⟨pid, s1, h1, h2⟩ := (run_bind_some _ _ _ _ _).mp h
+  obtain ⟨⟨ch, hch, hpid⟩, e1⟩ := (ref_run _ _ _ _ _).mp h1
+  subst s1
+  obtain ⟨psc, s2, h3, h4⟩ := (run_bind_some _ _ _ _ _).mp h2
+  obtain ⟨⟨ch', hch', hpsc⟩, e2⟩ := (ref_run _ _ _ _ _).mp h3
+  subst s2
+  have e3 : ch' = ch := by rw [hch] at hch'; exact (Option.some.inj hch').symm
+  subst e3
+  obtain ⟨ver, s3, h5, h6⟩ := (run_bind_some _ _ _ _ _).mp h4
+  obtain ⟨_, e4⟩ := (scalAt_run _ _ _ _ _).mp h5
+  subst s3
+  obtain ⟨pid', s4, h7, h8⟩ := (run_bind_some _ _ _ _ _).mp h6
+  obtain ⟨cp, hcp, e5, e6⟩ := (copyCell_run _ _ _ _).mp h7
+  subst pid' s4
+  obtain ⟨psc', s5, h9, h10⟩ := (run_bind_some _ _ _ _ _).mp h8
+  obtain ⟨cq, hcq, e7, e8⟩ := (copyCell_run _ _ _ _).mp h9
+  subst psc' s5
+  obtain ⟨e9, e10⟩ := (new_run _ _ _ _).mp h10
+  subst rid s'
+  have hpl : pid < s.length := closed_kid_lt hc hch (kid_of_ref hpid)
+  have hql : psc < s.length := closed_kid_lt hc hch (kid_of_ref hpsc)
+  rw [List.getElem?_append_left hql] at hcq
+  have hkp : cp.kids = [] := leaf_kids (hl pid (by simp [hch, kid_of_ref hpid])) hcp
+  have hkq : cq.kids = [] := leaf_kids (hl psc (by simp [hch, kid_of_ref hpsc])) hcq
+  have hs : s ++ [cp] ++ [cq] ++ [⟨.requestId, [some s.length, some (s ++ [cp]).length], [ver]⟩]
+      = s ++ [cp, cq, ⟨.requestId, [some s.length, some (s.length + 1)], [ver]⟩] := by simp
+  rw [hs]
+  apply C11_heap_fresh_disjoint depth s _ _ b hc hb
+  · intro c hcm r hr
+    simp only [List.mem_cons, List.not_mem_nil, or_false] at hcm
+    rcases hcm with rfl | rfl | rfl
+    · simp [hkp] at hr
+    · simp [hkq] at hr
+    · simp [Cell.kids] at hr; rcases hr with rfl | rfl <;> simp
+  · simp
+
+/-! ### scalar writes inside one object graph are invisible from a disjoint one — for every sequence of setter calls -/
+
+/-- `s'` is `s` after finitely many assignments of SCALAR attributes of cells in `R` -/
+inductive ScalSteps (R : List Addr) : Store → Store → Prop
+  | refl (s : Store) : ScalSteps R s s
+  | snoc {s s' : Store} (a : Addr) (c : Cell) (f : List Nat) :
+      ScalSteps R s s' → a ∈ R → s'[a]? = some c → ScalSteps R s (s'.set a { c with scal := f })
+
+private theorem ScalSteps.trans {R : List Addr} {s s' s'' : Store} (h1 : ScalSteps R s s') (h2 : ScalSteps R s' s'') :
+    ScalSteps R s s'' := by
+  induction h2 with
+  | refl => exact h1
+  | snoc a c f _ ha hc ih => exact .snoc a c f ih ha hc
+
+private theorem reachN_set_same_refs (n : Nat) (s : Store) (a : Addr) (c c' : Cell) (hc : s[a]? = some c)
+    (hr : c'.refs = c.refs) (x : Addr) : reachN n (s.set a c') x = reachN n s x := by
+  induction n generalizing x with
+  | zero => rfl
+  | succ n ih =>
+    simp only [reachN]
+    congr 1
+    by_cases hx : a = x
+    · subst hx
+      rw [List.getElem?_set_self (List.getElem?_eq_some_iff.mp hc).1, hc]
+      simp only [Cell.kids, hr]
+      exact flatMap_congr' (fun r _ => ih r)
+    · rw [List.getElem?_set_ne hx]
+      cases s[x]? with
+      | none => rfl
+      | some cx => exact flatMap_congr' (fun r _ => ih r)
+
+private theorem ScalSteps.reach_eq {R : List Addr} {s s' : Store} (h : ScalSteps R s s') (n : Nat) (x : Addr) :
+    reachN n s' x = reachN n s x := by
+  induction h with
+  | refl => rfl
+  | snoc a c f _ _ hc ih => rw [reachN_set_same_refs n _ a c { c with scal := f } hc rfl x, ih]
+
+private theorem ScalSteps.view_eq {R : List Addr} {s s' : Store} (h : ScalSteps R s s') (n : Nat) (x : Addr)
+    (hd : ∀ a ∈ R, a ∉ reachN n s x) : viewN n s' x = viewN n s x := by
+  induction h with
+  | refl => rfl
+  | snoc a c f st ha _ ih =>
+    rw [C11_heap_frame n _ x a _ (by rw [st.reach_eq n x]; exact hd a ha), ih]
+
+private theorem mem_reachN_self (n : Nat) (s : Store) (a : Addr) : a ∈ reachN n s a := by
+  cases n <;> simp [reachN]
+
+private theorem mem_reachN_step {n : Nat} {s : Store} {a r x : Addr} {c : Cell} {i : Nat} (hc : s[a]? = some c)
+    (hr : c.refs[i]? = some (some r)) (hx : x ∈ reachN n s r) : x ∈ reachN (n + 1) s a := by
+  simp only [reachN, hc, List.mem_cons, List.mem_flatMap]
+  exact Or.inr ⟨r, kid_of_ref hr, hx⟩
+
+private theorem scalSteps_setScal {R : List Addr} {s s0 s' : Store} {a : Addr} {i v : Nat} {u : Unit} (st : ScalSteps R s0 s)
+    (ha : a ∈ R) (h : (setScal a i v).run s = some (u, s')) : ScalSteps R s0 s' := by
+  obtain ⟨c, hc, rfl⟩ := (setScal_run _ _ _ _ _ _).mp h
+  exact .snoc a c _ st ha hc
+
+/-- every documented telecommand setter is a sequence of scalar assignments inside the telecommand's own object graph -/
+theorem C02_heap_tc_setter_confined (s : Store) (tc : Addr) (op : TcOp) (u : Unit) (s' : Store)
+    (h : (tcSet tc op).run s = some (u, s')) : ScalSteps (reach s tc) s s' := by
+  have hself : tc ∈ reach s tc := mem_reachN_self _ _ _
+  cases op with
+  | seqCount v =>
+    simp only [tcSet] at h
+    obtain ⟨hd, s1, h1, h2⟩ := (run_bind_some _ _ _ _ _).mp h
+    obtain ⟨⟨ct, hct, hr⟩, e⟩ := (ref_run _ _ _ _ _).mp h1
+    subst s1
+    obtain ⟨psc, s2, h3, h4⟩ := (run_bind_some _ _ _ _ _).mp h2
+    obtain ⟨⟨ch, hch, hr2⟩, e⟩ := (ref_run _ _ _ _ _).mp h3
+    subst s2
+    exact scalSteps_setScal (.refl s) (mem_reachN_step hct hr (mem_reachN_step hch hr2 (mem_reachN_self _ _ _))) h4
+  | apid v =>
+    simp only [tcSet] at h
+    obtain ⟨hd, s1, h1, h2⟩ := (run_bind_some _ _ _ _ _).mp h
+    obtain ⟨⟨ct, hct, hr⟩, e⟩ := (ref_run _ _ _ _ _).mp h1
+    subst s1
+    obtain ⟨pid, s2, h3, h4⟩ := (run_bind_some _ _ _ _ _).mp h2
+    obtain ⟨⟨ch, hch, hr2⟩, e⟩ := (ref_run _ _ _ _ _).mp h3
+    subst s2
+    exact scalSteps_setScal (.refl s) (mem_reachN_step hct hr (mem_reachN_step hch hr2 (mem_reachN_self _ _ _))) h4
+  | sourceId v =>
+    simp only [tcSet] at h
+    obtain ⟨sec, s1, h1, h2⟩ := (run_bind_some _ _ _ _ _).mp h
+    obtain ⟨⟨ct, hct, hr⟩, e⟩ := (ref_run _ _ _ _ _).mp h1
+    subst s1
+    exact scalSteps_setScal (.refl s) (mem_reachN_step hct hr (mem_reachN_self _ _ _)) h2
+  | appData n =>
+    simp only [tcSet] at h
+    obtain ⟨hd, s1, h1, h2⟩ := (run_bind_some _ _ _ _ _).mp h
+    obtain ⟨⟨ct, hct, hr⟩, e⟩ := (ref_run _ _ _ _ _).mp h1
+    subst s1
+    split at h2
+    · exact ((fail_run _ _ _).mp h2).elim
+    · obtain ⟨u1, s2, h3, h4⟩ := (run_bind_some _ _ _ _ _).mp h2
+      have st1 := scalSteps_setScal (.refl s) hself h3
+      exact scalSteps_setScal st1 (mem_reachN_step hct hr (mem_reachN_self _ _ _)) h4
+
+/-- ISOLATION, for ALL sequences of setter calls: an object whose reachable cells are disjoint from the telecommand's
+    shows the same view (and reaches the same cells) after any number of `seq_count` / `apid` / `source_id` / `app_data`
+    assignments on the telecommand, refused calls included -/
+theorem C02_heap_tc_setters_frame (s : Store) (tc x : Addr) (hd : Disjoint (reach s x) (reach s tc)) (ops : List TcOp) :
+    view (runOps (tcSet tc) ops s) x = view s x ∧ reach (runOps (tcSet tc) ops s) x = reach s x := by
+  have key : ∀ (ops : List TcOp) (s0 : Store), ScalSteps (reach s tc) s s0 →
+      ScalSteps (reach s tc) s (runOps (tcSet tc) ops s0) := by
+    intro ops
+    induction ops with
+    | nil => intro s0 h; exact h
+    | cons o ops ih =>
+      intro s0 h
+      simp only [runOps, List.foldl_cons]
+      cases hrun : (tcSet tc o).run s0 with
+      | none => exact ih s0 h
+      | some p =>
+        obtain ⟨u, s1⟩ := p
+        have st := C02_heap_tc_setter_confined s0 tc o u s1 hrun
+        have e : reach s0 tc = reach s tc := h.reach_eq depth tc
+        rw [e] at st
+        exact ih s1 (h.trans st)
+  have st := key ops s (.refl s)
+  exact ⟨st.view_eq depth x (fun a ha hx => hd a hx ha), st.reach_eq depth x⟩
+
+/-- the header a telecommand / telemetry / space-packet object holds (first object attribute) -/
+def headerOf (s : Store) (p : Addr) : Option Addr := (s[p]?.bind fun c => c.refs[0]?).join
+
+/-- C15, all histories: the request ID taken from a telecommand (`RequestId.from_pus_tc`) is a SNAPSHOT — no sequence of
+    setter calls on the telecommand afterwards changes anything readable through the request ID -/
+theorem C15_heap_reqid_isolated (s : Store) (hc : Closed s) (tc : Addr) (htc : tc < s.length)
+    (hl : ∀ hdr, headerOf s tc = some hdr → KidsAreLeaves s hdr)
+    (rid : Addr) (s' : Store) (h : (reqIdFromPusTc tc).run s = some (rid, s')) (ops : List TcOp) :
+    Disjoint (reach s' rid) (reach s' tc) ∧ view (runOps (tcSet tc) ops s') rid = view s' rid := by
+  unfold reqIdFromPusTc at h
+  obtain ⟨hdr, s1, h1, h2⟩ := (run_bind_some _ _ _ _ _).mp h
+  obtain ⟨⟨ct, hct, hr⟩, e⟩ := (ref_run _ _ _ _ _).mp h1
+  subst s1
+  have hsep := C15_heap_reqid_separated s hc hdr (hl hdr (by simp [headerOf, hct, hr])) rid s' h2 tc htc
+  exact ⟨hsep, (C02_heap_tc_setters_frame s' tc rid hsep ops).1⟩
+
 end SpVerif.Props.C11Heap
